@@ -7,16 +7,16 @@ import stat
 import subprocess
 
 from mc import e1, objspace as ob, refmodel as rm
-from mc.common import HarnessError, make_rule_doc
+from mc.common import HarnessError, REPO, make_rule_doc
 
 ID = "C15"
 LEVEL = "exploration"
 ENGINE = "E2"
 TECHNIQUE = "bounded exhaustive enumeration of object-file layouts x code bodies x sections lists x rules, binary route vs assembly route on the harness's own objdump text; argv of the spawned objdump recorded by a PATH shim"
 RULE = ("object files built with the real assembler: 4 section layouts (one .text; two executable sections; executable + data "
-        "+ .plt-named executable section; no executable section) x B code bodies (hand-written functions and C08 byte "
+        "+ .plt-named executable section; no executable section) x B code bodies (hand-written functions, a body with runs of zero bytes, and C08 byte "
         "windows) x ELF class {elf64, elf32} x EVERY sections list in {absent, [], each single section name of the layout, "
-        "each ordered pair, a name not in the file, present+absent in both orders} x 4 rules x {first, all} modes, and each sections list combined with the other rule options (valid_addr_range covering part of the code, both full-match flags) for 2 rules, all "
+        "each ordered pair, a name not in the file, present+absent in both orders} x 5 rules x {first, all} modes, and each sections list combined with the other rule options (valid_addr_range covering part of the code, both full-match flags) for 2 rules, plus the real programs under tests/binary (quick: those below 1 MB) through both routes without and with sections lists, all "
         "executed in one process per shard so that consecutive operations have different sections lists. Oracle: the "
         "harness runs `objdump -d -M att [-j s]... file` itself; if objdump exits non-zero the binary route must raise; "
         "otherwise the instruction stream and the result lists of the binary route equal those of the assembly route on "
@@ -33,15 +33,18 @@ BODIES = [
     "call f1\nf1:\n jmp *%rax\n call *0x10(%rip)\n nopw 0x0(%rax,%rax,1)\n ret\n",
     "movabs $0x1122334455667788,%rax\n lock cmpxchg %rax,(%rbx)\n rep stos %al,%es:(%rdi)\n ret\n",
     "xor %eax,%eax\n inc %eax\n dec %ecx\n push %rbx\n lea 0x8(%rax,%rbx,4),%rcx\n ret\n",
+    # runs of zero bytes (objdump folds them into '...'), inside the code and as the tail of the section
+    "push %rbx\n inc %eax\n .zero 24\n push %rax\n ret\n .zero 8\n",
 ]
 BODIES32 = [
     "push %ebp\n mov %esp,%ebp\n inc %eax\n dec %ecx\n inc %edx\n pop %ebp\n ret\n",
     "push %ebx\n mov 0x8(%esp),%eax\n lea 0x0(%esi),%esi\n inc %eax\n ret\n",
+    "push %ebx\n inc %eax\n .zero 24\n push %eax\n ret\n .zero 8\n",
 ]
 RAW = [bytes.fromhex("4048ffc0c3") + ob.NOP_SLED[:3], bytes.fromhex("06670000c3"), bytes.fromhex("2e7002ebfec3")]
 
 RULES = [["ret"], ["push"], [{"$not": ["ret"]}, "ret"], [{"mov": ["@any0", "@any0"]}]]
-RULES = [["ret"], ["push"], [{"$not": ["ret"]}, "ret"], ["inc"]]
+RULES = [["ret"], ["push"], [{"$not": ["ret"]}, "ret"], ["inc"], ["add"]]
 
 
 # options that have nothing to do with disassembling; the address range covers only part of every body
@@ -97,22 +100,34 @@ def big_source(n):
 
 
 def run_big(shard, h, res, known):
-    """large objects: the objdump listing is far bigger than any I/O block (64 KiB .. several MiB); whole streams compared"""
-    n = shard["n"]
-    sp = h.write("c15big.s", big_source(n))
-    obj = h.path("c15big.o")
-    r = subprocess.run(["as", "--64", sp, "-o", obj], capture_output=True, text=True)
-    if r.returncode != 0:
-        raise HarnessError("as failed: " + r.stderr[:300])
-    for sections in (None, [".text"], [".text.hot", ".text"]):
+    """large objects: the objdump listing is far bigger than any I/O block (64 KiB .. several MiB); whole streams compared.
+    kind 'corpus': the same comparison on a real program of the repository (tests/binary): every register, prefix and
+    addressing form it contains goes through both routes"""
+    if shard.get("kind") == "corpus":
+        n, obj = 0, shard["binary"]
+        seclists = (None, [".text"], [".plt", ".text"])
+    else:
+        n = shard["n"]
+        sp = h.write("c15big.s", big_source(n))
+        obj = h.path("c15big.o")
+        r = subprocess.run(["as", "--64", sp, "-o", obj], capture_output=True, text=True)
+        if r.returncode != 0:
+            raise HarnessError("as failed: " + r.stderr[:300])
+        seclists = (None, [".text"], [".text.hot", ".text"])
+    for sections in seclists:
         conf = {} if sections is None else {"sections": sections}
         cmd = ["objdump", "-d", "-M", "att"] + [x for s in (sections or []) for x in ("-j", s)] + [obj]
         ref = subprocess.run(cmd, capture_output=True, text=True)
+        if ref.returncode != 0:
+            res.count("corpus_section_list_not_applicable")      # e.g. no .plt in this program: the fault side is the small family's subject
+            continue
         tpath = h.write("c15big.txt", ref.stdout)
-        for rule in (["pop", "nop", "ret"], ["zzzznomatch"]):
+        for rule in (["pop", "nop", "ret"], ["zzzznomatch"]) if not shard.get("kind") == "corpus" else (["pop", "ret"], [{"mov": ["rsp"]}, "call"]):
             res.evaluations += 1
             res.nontrivial += 1
             case = {"family": "big", "n": n, "config": conf, "rule": make_rule_doc(rule, conf), "size": n}
+            if shard.get("kind") == "corpus":
+                case.update(family="corpus", binary=obj.replace(REPO, "<repo>"))
             try:
                 mb = h.mop(make_rule_doc(rule, conf), binary=True)
                 gs, g = h.match(mb, obj, ret="stream"), h.match(mb, obj, only_addr=True)
@@ -134,6 +149,9 @@ def run_big(shard, h, res, known):
 
 def shards(tier):
     sh = [{"kind": "big", "n": n} for n in ([1500, 9000, 45000] if tier == "quick" else [1500, 9000, 45000, 120000])]
+    import glob
+    sh += [{"kind": "corpus", "binary": p} for p in sorted(glob.glob(os.path.join(REPO, "tests", "binary", "*")))
+           if tier == "thorough" or os.path.getsize(p) < 1000000]        # quick leaves out the largest program (bash)
     for cls in (64, 32):
         bodies = range(len(BODIES) + len(RAW)) if cls == 64 else range(len(BODIES32) + len(RAW))
         for layout in range(6):
@@ -153,7 +171,7 @@ def body_text(cls, b):
 
 
 def run_shard(shard, tier, h, res, known):
-    if shard.get("kind") == "big":
+    if shard.get("kind") in ("big", "corpus"):
         return run_big(shard, h, res, known)
     cls = shard["cls"]
     body = body_text(cls, shard["body"])
@@ -228,10 +246,11 @@ def controls(h):
 
 
 def replay(case, h):
-    if case.get("family") == "big":
+    if case.get("family") in ("big", "corpus"):
         r = type("R", (), {"evaluations": 0, "nontrivial": 0, "fails": []})()
         r.fail = lambda c, k: r.fails.append(c)
-        run_big({"n": case["n"]}, h, r, set())
+        r.count = lambda *a, **k: None
+        run_big({"n": case["n"]} if case["family"] == "big" else {"kind": "corpus", "binary": case["binary"].replace("<repo>", REPO)}, h, r, set())
         return bool(r.fails), str([f["clause"] for f in r.fails])
     sp = h.write("r.s", case["source"])
     obj = h.path("r.o")
